@@ -383,6 +383,12 @@ MUTATIONS = [
      'desc': 'revert of the fix: Multiband_amplifier.to_json drops the input VOA of its per-band amplifiers',
      'edits': [('gnpy/core/elements.py', "                        'out_voa': amp.out_voa,\n                        'in_voa': amp.in_voa\n",
                 "                        'out_voa': amp.out_voa\n")]},
+    {'id': 'c14-revert-fixed-centre-outside-map-blocks', 'props': ['C14'], 'tests': 'tests/test_spectrum_assignment.py',
+     'desc': 'revert of the fix: a user-fixed N outside the slot range of the maps raises ValueError',
+     'edits': [('gnpy/topology/spectrum_assignment.py', """    if requested_n not in freq_index:
+        # the requested center is outside of the spectrum of this OMS: nothing is available around it
+        return 0
+""", "")]},
     {'id': 'c11-revert-explicit-ispart', 'props': ['C11'], 'tests': 'tests/test_path_computation_functions.py tests/test_disjunction.py',
      'desc': 'revert of fix e50d35fe: explicit route returned without checking the listed nodes are crossed in order',
      'edits': [('gnpy/topology/request.py', "    if total_path is not None and ispart(nodes_list, total_path):",
